@@ -5,17 +5,24 @@ The lead merges JOBS / RULE / ASSUMPTIONS / MANDATORY into conf/c17.py (PROP["jo
 from conf.common import PAIRING
 
 C17B_CORE = ["bn254", "bls12-381", "bw6-761"]
+C17B_REST = [c for c in PAIRING if c not in C17B_CORE]
 
 
 def c17b_curves(tier):
     return C17B_CORE if tier == "quick" else PAIRING
 
 
+# quick: the core curves get the full counts, the four other pairing curves (same generated code, separate
+# copies) a reduced count — every targeted forgery class still occurs on every curve (see MANDATORY).
 JOBS = [
     dict(name="b-permutation", pkg="c17b", run="^TestC17b_Permutation$", shards=c17b_curves, checks=(40, 300), weight=3),
     dict(name="b-lookupvector", pkg="c17b", run="^TestC17b_LookupVector$", shards=c17b_curves, checks=(30, 130), weight=4),
     dict(name="b-lookuptables", pkg="c17b", run="^TestC17b_LookupTables$", shards=c17b_curves, checks=(14, 55), weight=5),
     dict(name="b-fri", pkg="c17b", run="^TestC17b_FRI$", shards=c17b_curves, checks=(150, 1200), weight=2),
+    dict(name="b-permutation-x", pkg="c17b", run="^TestC17b_Permutation$", shards=C17B_REST, checks=(14, 14), tiers=("quick",), weight=2),
+    dict(name="b-lookupvector-x", pkg="c17b", run="^TestC17b_LookupVector$", shards=C17B_REST, checks=(10, 10), tiers=("quick",), weight=3),
+    dict(name="b-lookuptables-x", pkg="c17b", run="^TestC17b_LookupTables$", shards=C17B_REST, checks=(5, 5), tiers=("quick",), weight=4),
+    dict(name="b-fri-x", pkg="c17b", run="^TestC17b_FRI$", shards=C17B_REST, checks=(50, 50), tiers=("quick",), weight=1),
     dict(name="b-vortex", pkg="c17b", run="^TestC17b_Vortex$", checks=(300, 1500), seeds=(2, 4), weight=2),
     dict(name="b-regress", pkg="c17b", run="^TestC17b_Regress", rapid=False),
 ]
@@ -62,4 +69,11 @@ MANDATORY = [
     "false_stmt|lookup_proof_in_unrelated_table",
     "positions_model_ok",
     "refprover_accepted",
-]
+] + [lab + "@" + c for c in PAIRING for lab in (
+    "forgery:degenerate_generator", "zero_accumulator",                       # permutation
+    "forgery:degenerate_generator(plookup)",                                    # plookup vector
+    "plookup_tables|ts[*]:point|random", "plookup_tables|permutationProof:struct|other", "spliced_lookup_proof",  # F91 classes
+    "fri_opening|ClaimedValue:felt|plus1",                                      # F16
+    "F17_forgery", "far_function",                                              # F17, far function
+    "fri_proximity|wrong_fold_committed_at_step", "fri_proximity|wrong_final_evaluation(consistent_queries)",
+)]
